@@ -652,8 +652,16 @@ def e2e_mitm(ctx, kex, kind, algo, field, rng):
                     ctx.disagree("valid-signature-refused", case, "accepted", repr(err))
                 return
         if err is None or sent_newkeys or e.tc.is_authenticated():
-            ctx.fail("altered-exchange-accepted:%s:%s" % (fam, field), case,
-                     "client error=%r NEWKEYS sent by client=%s" % (err, sent_newkeys))
+            if ("sig" in edited and e.log["c"] and field.startswith("sig-append")
+                    and ecdsa_genuine_plus_trailing(edited["hostkey"], e.log["c"][0][1], edited["sig"]) is True):
+                # one precise signature for this one behaviour (listed in known_findings.json); anything else that is
+                # accepted keeps the general signature below
+                ctx.fail("ecdsa-signature-followed-by-trailing-octets-accepted", case,
+                         "the signature string is a valid (r, s) over H followed by %s extra octet(s); client error=%r"
+                         % (field[len("sig-append-"):], err))
+            else:
+                ctx.fail("altered-exchange-accepted:%s:%s" % (fam, field), case,
+                         "client error=%r NEWKEYS sent by client=%s" % (err, sent_newkeys))
     finally:
         e.close()
 
@@ -747,6 +755,45 @@ def resize_signature(sigblob, field, rng):
     else:
         raise KeyError(field)
     return s_(name) + s_(body)
+
+
+def ecdsa_genuine_plus_trailing(hostkey_blob, H, sigblob):
+    """True iff the host key is ECDSA and the signature string is exactly a valid (r, s) over H under that key
+    FOLLOWED by extra octets — judged with `cryptography` alone.  (OpenSSH refuses such a blob: unexpected trailing
+    data; ECDSAKey._sigdecode reads r and s and ignores what follows.)  None = not that shape."""
+    from cryptography.exceptions import InvalidSignature
+    from cryptography.hazmat.primitives import hashes
+    from cryptography.hazmat.primitives.asymmetric import ec
+    from cryptography.hazmat.primitives.asymmetric.utils import encode_dss_signature
+
+    try:
+        ktype, curve_id, point = L.split_fields(b"\x00" + hostkey_blob, "sss")
+        name, body = L.split_fields(b"\x00" + sigblob, "ss")
+    except Exception:
+        return None
+    curves = {b"nistp256": (ec.SECP256R1(), hashes.SHA256), b"nistp384": (ec.SECP384R1(), hashes.SHA384),
+              b"nistp521": (ec.SECP521R1(), hashes.SHA512)}
+    if not ktype.startswith(b"ecdsa-sha2-") or curve_id not in curves or name != ktype:
+        return None
+
+    def mpint(b):
+        if len(b) < 4:
+            return None, b
+        n = int.from_bytes(b[:4], "big")
+        if len(b) < 4 + n:
+            return None, b
+        return int.from_bytes(b[4:4 + n], "big", signed=True), b[4 + n:]
+
+    r, rest = mpint(body)
+    s, rest = mpint(rest) if r is not None else (None, rest)
+    if r is None or s is None or not rest or r <= 0 or s <= 0:
+        return None
+    curve, h = curves[curve_id]
+    try:
+        ec.EllipticCurvePublicKey.from_encoded_point(curve, point).verify(encode_dss_signature(r, s), H, ec.ECDSA(h()))
+        return True
+    except (InvalidSignature, ValueError):
+        return False
 
 
 def independently_valid(hostkey_blob, H, sigblob):
